@@ -133,6 +133,8 @@ STD_GLOBS = {"Stream": Stream, "it": IT, "xmap": xmap, "xzip": xzip, "Iterable":
 
 
 def std_isinstance(m, v, cls):
+    if cls == "IGNORED":
+        return isinstance(v, Ref) and v.kind == "obj" and v.elem == "Ignored"
     if cls == "Iterable":
         return is_iterable(m, v)
     if cls == "float":
